@@ -98,6 +98,11 @@ SNIPPETS = textwrap.dedent('''
         mask = np.logical_and(mask, mask.T)
         return mask
     def s_isclose(a, b): return bool(np.isclose(a, b))
+    def s_setorder(p, a): return list(set(range(p)) - {a})
+    def s_list_remove(L, x):
+        L = list(L)
+        L.remove(x)
+        return L
     def s_abs(v): return np.abs(v)
 ''')
 
@@ -105,7 +110,7 @@ ARGS = {
     'A': [[[0, 1.0, 0], [0, 0, -2.0], [0.5, 0, 0]], [[0, 1, 1], [1, 0, 0], [0, 0, 0]], [[0.0]], [[0, 2.0], [0, 0]], [[1.0, 1.0], [-1.0, 0.0]]],
     'i': [0, 1], 'R': [[0], [1, 0], []], 'C': [[1, 0], [0]], 'v': [[1.5, -2.5, 0.0], [3.0]], 'w': [[7.0], [8.0, 9.5], []],
     'a': [0, 1, 5], 'b': [0, 2, 7], 'p': [1, 2, 4], 'S': [[0, 1], [], [1]], 'T': [[1, 2], [0, 1, 2]], 'L': [[3, 1, 2], []],
-    'x': [2.5, -0.4, 3.0, 0.5, 1.5], 'k': [0, 3],
+    'x': [2.5, -0.4, 3.0, 0.5, 1.5], 'k': [0, 3], 'L2': [[3, 1, 2], [4, 7, 4, 9]], 'e': [4, 2, 3],
 }
 SIG = {
     's_index_row': 'A i', 's_index_col': 'A i', 's_where1': 'A i', 's_set_where': 'A i', 's_transpose_add': 'A', 's_mask_assign': 'A',
@@ -113,7 +118,7 @@ SIG = {
     's_count_axis0': 'A', 's_count_total': 'A', 's_np_sum_axis': 'A', 's_any_all': 'A', 's_where2': 'A', 's_filter_zip': 'A', 's_dict_zip': 'A',
     's_triu': 'A', 's_eye_minus': 'A', 's_diag': 'v', 's_slices': 'A a b', 's_slice_tail': 'A a', 's_astype_trunc': 'v', 's_int_store': 'v x',
     's_atleast': 'x', 's_arange_pair': 'p', 's_list_ops': 'p', 's_set_ops': 'S T', 's_enumerate': 'L', 's_reversed': 'L', 's_list_mul': 'x k',
-    's_round': 'x', 's_intdiv': 'p', 's_tuple_cmp': 'a b', 's_mask_cols': 'A i', 's_zeros_like_bool': 'A S', 's_isclose': 'x x', 's_abs': 'v',
+    's_round': 'x', 's_intdiv': 'p', 's_tuple_cmp': 'a b', 's_mask_cols': 'A i', 's_zeros_like_bool': 'A S', 's_isclose': 'x x', 's_abs': 'v', 's_setorder': 'p a', 's_list_remove': 'L2 e',
 }
 
 
@@ -154,10 +159,64 @@ def jsonable(r):
     return r
 
 
+def setorder_sweep(nmax=1500):
+    """A-SETORDER on the running CPython: list(set(range(n)) - {i}) is increasing for every n <= nmax and every i (and i outside the range)"""
+    bad = 0
+    for n in list(range(0, 300)) + list(range(300, nmax, 37)):
+        for i in list(range(n)) + [n, -1]:
+            L = list(set(range(n)) - {i})
+            if L != [x for x in range(n) if x != i]:
+                bad += 1
+    return bad
+
+
+def viewcopy_sweep():
+    """A-VIEWCOPY on the installed numpy: every function / method that vk/frames.py lists as returning a FRESH object is called on
+    sample arrays and its result must not share memory with the argument; the listed view-makers may share.  Returns the offenders."""
+    import numpy as np
+    sys.path.insert(0, HERE)
+    from vk import frames
+    A = np.arange(12.0).reshape(3, 4) + 1
+    sq = A[:, :3].copy()
+    v = np.arange(4.0)
+    calls = {
+        'array': lambda: np.array(A), 'zeros_like': lambda: np.zeros_like(A), 'ones_like': lambda: np.ones_like(A), 'empty_like': lambda: np.empty_like(A),
+        'diag': lambda: np.diag(v), 'where': lambda: np.where(A > 2)[0], 'logical_and': lambda: np.logical_and(A, A), 'logical_or': lambda: np.logical_or(A, A),
+        'logical_not': lambda: np.logical_not(A), 'sum': lambda: np.sum(A, axis=0), 'unique': lambda: np.unique(A), 'hstack': lambda: np.hstack((v, v)),
+        'vstack': lambda: np.vstack((A, A)), 'repeat': lambda: np.repeat(v, 2), 'delete': lambda: np.delete(A, 0, axis=0), 'triu': lambda: np.triu(sq), 'tril': lambda: np.tril(sq),
+        'abs': lambda: np.abs(A), 'copy': lambda: np.copy(A), 'sort': lambda: np.sort(v), 'argsort': lambda: np.argsort(v), 'cumsum': lambda: np.cumsum(v),
+        'round': lambda: np.round(A), 'minimum': lambda: np.minimum(A, A), 'maximum': lambda: np.maximum(A, A), 'exp': lambda: np.exp(A), 'sqrt': lambda: np.sqrt(A),
+        'outer': lambda: np.outer(v, v), 'dot': lambda: np.dot(sq, sq), 'concatenate': lambda: np.concatenate((v, v)), 'stack': lambda: np.stack((v, v)),
+        'column_stack': lambda: np.column_stack((v, v)), 'tile': lambda: np.tile(v, 2), 'sign': lambda: np.sign(A), 'power': lambda: np.power(A, 2),
+        'linalg.inv': lambda: np.linalg.inv(sq + 5 * np.eye(3)), 'linalg.solve': lambda: np.linalg.solve(sq + 5 * np.eye(3), np.ones(3)),
+        '.copy': lambda: A.copy(), '.astype': lambda: A.astype(float), '.astype(int)': lambda: A.astype(int), '.flatten': lambda: A.flatten(), '.cumsum': lambda: v.cumsum(),
+        '.round': lambda: A.round(), '.dot': lambda: sq.dot(sq), '.tolist': lambda: np.array(A.tolist()),
+        'fancy rows': lambda: A[[0, 2], :], 'fancy cols': lambda: A[:, [1, 0]], 'bool mask': lambda: A[A > 3], 'binop': lambda: A + 0, 'unary': lambda: -A, 'compare': lambda: A != 0,
+    }
+    bad = []
+    for name, f in calls.items():
+        key = name.lstrip('.').split('(')[0].split('.')[-1]
+        listed = key in frames.FRESH_NP or key in frames.FRESH_METHODS or key in ('copy', 'astype', 'inv', 'solve') or ' ' in name or name in ('binop', 'unary', 'compare')
+        r = f()
+        if not listed:
+            bad.append('%s is exercised here but not listed as fresh in vk/frames.py' % name)
+        elif any(np.shares_memory(r, x) for x in (A, sq, v)):
+            bad.append('%s returns storage shared with its argument' % name)
+    views = {'asarray': lambda: np.asarray(A), 'atleast_2d': lambda: np.atleast_2d(A), 'transpose': lambda: np.transpose(A), 'ravel': lambda: np.ravel(A), 'reshape': lambda: np.reshape(A, (4, 3)),
+             '.T': lambda: A.T, 'basic slice': lambda: A[1:, :2], 'row': lambda: A[1]}
+    for name, f in views.items():       # these MAY share (the analysis keeps the base region): they must at least be listed as such
+        key = name.lstrip('.')
+        if ' ' not in name and key not in ('T', 'row') and key not in frames.VIEW_NP:
+            bad.append('%s is a view-maker that vk/frames.py does not list' % name)
+    return bad
+
+
 def native():
     ns = {}
     exec(SNIPPETS, ns)
     out = []
+    out.append({'fn': 'A-VIEWCOPY-sweep', 'args': [], 'ok': True, 'res': viewcopy_sweep()})
+    out.append({'fn': 'A-SETORDER-sweep', 'args': [], 'ok': True, 'res': setorder_sweep()})
     for name, names, combo in cases():
         args = [to_native(n, v) for n, v in zip(names, combo)]
         try:
@@ -199,7 +258,7 @@ def symbolic():
             return st.alloc(SArr((len(v),), lambda i, v=v: _sel1(v, i, False), 'int'))
         if n in ('S', 'T'):
             return st.alloc(SSet(lambda x, v=v: OR(*[EQ(x, e) for e in v]), INT))
-        if n == 'L':
+        if n in ('L', 'L2'):
             return st.alloc(SList.of(list(v), INT))
         return v
 
@@ -265,6 +324,20 @@ def symbolic():
 
     for rec in nat:
         name = rec['fn']
+        if name == 'A-VIEWCOPY-sweep':
+            if not rec['res']:
+                agree += 1
+            else:
+                disagree += 1
+                problems.append({'case': 'A-VIEWCOPY', 'problem': '; '.join(rec['res'])})
+            continue
+        if name == 'A-SETORDER-sweep':
+            if rec['res'] == 0:
+                agree += 1
+            else:
+                disagree += 1
+                problems.append({'case': rec, 'problem': 'list(set(range(n)) - {i}) is not increasing on this interpreter: A-SETORDER does not hold'})
+            continue
         names = SIG[name].split()
         ex = Exec(prog, db)
         ex.cur = prog.funcs['conf.' + name]
